@@ -218,6 +218,9 @@ def decorate(rng, pg, p_stereo=0.6, p_none=0.0, p_change=0.0, one_sided=0.05, va
                 d = _atom_desc(rng, a, sn[s][a] if sn else nbr[a], p_none)
                 if d:
                     v[s] = d
+            if len(v) > 1 and rng.random() < 0.3 and len({frozenset(x for x in d[1] if x is not None) for d in v.values()}) == 1:
+                first = next(iter(v.values()))  # the configuration is retained: the same descriptor in several slots
+                v = {s: first for s in v}
             if v:
                 pg["achange"][a] = v
             if static_ok and rng.random() < 0.1:
